@@ -342,6 +342,8 @@ def word_values(buf, w):
             orig + 1, max(0, orig - 1)}
     for bits in list(range(0, 34)) + [64, 255]:
         vals.add((orig & 0xFFFFFF) | (bits << 24))
+    for b in range(32):         # every single-bit flip of the word
+        vals.add(orig ^ (1 << b))
     vals.discard(orig)
     return sorted(v for v in vals if 0 <= v < 2 ** 32)
 
